@@ -360,6 +360,7 @@ pub fn run(ctx: &Ctx) {
         let ops_hash = hash_of(&it.ops);
         let tail: Vec<String> = it.ops.iter().rev().take(6).cloned().collect();
         let nfail = it.ops.iter().filter(|o| o.contains("failure") || o.contains("missing")).count();
+        rep.stat("multi_packet_sends_to_dropped_receivers", it.big_dead_sends as i64);
         // drop every handle the program obtained
         let Interp { world, model, .. } = it;
         drop(world);
